@@ -347,6 +347,32 @@ def r2_short_read(L, repo):
         okrc = any((("False is %s" % x, False) in lits) for x in rcname)
         L.ob("C15.R2", F, fn, "... and only if the header parsed (known tag)", "rc is not False", lit_fmt(lits), okrc, node.line)
     L.require("C15.R2", F, fn, "message-returning paths", 1, n_msg)
+    # ... and what is returned there IS the message object created for the record's tag, after its body was parsed into it
+    for node, val in rets:
+        k = canon(val) if val is not None else "None"
+        if k in ("None", "False"):
+            continue
+        obj = val
+        via_call = False
+        if isinstance(val, ast.Call) and isinstance(val.func, ast.Attribute) and val.func.attr == "parse_msg":
+            obj, via_call = val.func.value, True
+        src = origin(fd, obj.id) if isinstance(obj, ast.Name) else [canon(obj)]
+        is_msg = len(src) == 1 and src[0].startswith("self.parse_hdr(") and src[0].endswith(")[0]")
+        if not is_msg:
+            raise AnalysisError("%s: returned value `%s` is not recognisably the message object of the record (%s)" % (fn, k, src))
+        if via_call:
+            # the value of Msg.parse_msg() itself is handed out: it must be the message on EVERY return of parse_msg
+            mci, pmsg = repo.need_method("data_msg", "Msg", "parse_msg")
+            prets, pimpl = returns(CFG(pmsg))
+            bad = [("line %s: return %s" % (n_.line, canon(v_) if v_ is not None else "")) for n_, v_ in prets if v_ is None or canon(v_) != "self"]
+            bad += ["falls off the end (returns None)"] * len(pimpl)
+            L.ob("C15.R2", F, fn, "`return %s`: Msg.parse_msg() hands back the message on every one of its returns (None would read as end of file)" % k,
+                 "every return of Msg.parse_msg is `return self`", bad[:3], not bad, node.line)
+        else:
+            called = [c for c in calls_in(fd) if isinstance(c.func, ast.Attribute) and c.func.attr == "parse_msg"
+                      and canon(c.func.value) == canon(obj) and cfg.dominates(cfg.node_of(c), node)]
+            L.ob("C15.R2", F, fn, "the returned message had the record's body parsed into it", "%s.parse_msg(<body>) dominates the return" % canon(obj),
+                 [canon(c)[:60] for c in called], bool(called), node.line)
     want_sizes = {"self.HDR_LENGTH"}
     prov = {k: (origin(fd, v) if v.isidentifier() else [v]) for k, v in rd.items()}
     hdrvars = [k for k, v in rd.items() if v == "self.HDR_LENGTH"]
@@ -575,11 +601,27 @@ def r3_skip_count(L, repo, hl):
         L.structural("C15.R3 shape of the append path (effects of append_msg, loop of append_all)", _append_shape, L, repo)
     else:
         _append_shape(L, repo)
-    # file opened for appending in binary mode
+    # the capture is opened for reading and writing in binary mode without discarding what it already holds (a re-opened
+    # capture must still return the messages stored earlier); where the writes land is R6's business
     ci, init = repo.need_method("data_dump", "DATADumpFile", "__init__")
-    opens = [canon(c) for c in calls_in(init) if canon(c.func) == "open"]
-    L.ob("C15.R3", F, "DATADumpFile.__init__", "capture is opened in binary append+read mode", "open(capture, 'a+b')", opens,
-         len(opens) == 1 and "'a+b'" in opens[0] or (len(opens) == 1 and "'ab+'" in opens[0]))
+    opens = [c for c in calls_in(init) if canon(c.func) == "open"]
+    L.floor("C15.R3", "open() calls in DATADumpFile.__init__", len(opens), 1)
+    for c in opens:
+        mode = c.args[1] if len(c.args) > 1 else next((k.value for k in c.keywords if k.arg == "mode"), None)
+        mv = mode.value if isinstance(mode, ast.Constant) and isinstance(mode.value, str) else None
+        if mv is None:
+            raise AnalysisError("DATADumpFile.__init__: open() mode is not a literal: %s" % canon(c))
+        ms = set(mv)
+        keeps = ("a" in ms or "r" in ms) and "+" in ms and "b" in ms and "w" not in ms and "x" not in ms
+        if not keeps and ms == set("w+b"):
+            # truncating is harmless exactly when there is nothing to lose: inside a handler for "file does not exist"
+            q, prev = getattr(c, "_parent", None), c
+            while q is not None and not isinstance(q, ast.FunctionDef):
+                if isinstance(q, ast.ExceptHandler) and q.type is not None and canon(q.type) == "FileNotFoundError":
+                    keeps = True
+                prev, q = q, getattr(q, "_parent", None)
+        L.ob("C15.R3", F, "DATADumpFile.__init__", "capture is opened in a binary read+write mode that keeps the stored messages",
+             "'a+b' / 'r+b' (or 'w+b' only when the file does not exist)", canon(c), keeps, c.lineno)
 
 
 def _append_shape(L, repo):
